@@ -527,3 +527,14 @@ Example ndjson_document_hypotheses_met :
   map cf_ts (map wcf_line cfs) = [1700000000123000000; 0].
 Proof. vm_compute. repeat split; repeat constructor. Qed.
 
+(* an Influx "message" line with further fields: the row's text is the logfmt rendering (message first, keys filtered, values
+   quoted where needed); a line whose only field is message keeps its text as it is *)
+Example influx_message_line_computed :
+  let l := IL "app"%string [("host", "a")]%string
+              [("message", FStr "hello world"); ("status code", FIntT (-7)); ("k=v", FStr "null"); ("ok", FBoolT true);
+               ("q", FStr (String (Ascii.ascii_of_N 9) "x"))]%string 5 in
+  iline_modelled l = true /\
+  map e_msg (influx_line_entries 1000 l) =
+    [("message=""hello world"" statuscode=-7 kv=""null"" ok=true q=""" ++ String (Ascii.ascii_of_N 92) "tx""")%string] /\
+  map e_msg (influx_line_entries 1 (IL "app"%string [] [("message", FStr "a=b c")]%string 5)) = ["a=b c"%string].
+Proof. vm_compute. repeat split. Qed.
